@@ -12,6 +12,7 @@ every recorded trace against the observer (tla/TrMUC.tla).
 
 Receipts: tla/Receipts.tla / TrReceipts.tla, harness/cmd/receipts (see run_c06_receipts_part)."""
 import json, os, re, shutil, subprocess
+from concurrent.futures import ThreadPoolExecutor
 import verif
 
 # ----------------------------------------------------------------------------- MUC: design check
@@ -22,6 +23,7 @@ MC_CFG = '''CONSTANTS
   MaxEnv = %(maxenv)d
   MaxFlight = %(maxflight)d
   Alphabet <- %(alpha)s
+  Splits = %(splits)s
   Dev = %(dev)s
 SPECIFICATION Spec
 INVARIANT C18_JoinOK
@@ -31,12 +33,13 @@ INVARIANT C18_LeaveReturns
 INVARIANT C18_JoinedIffIn
 INVARIANT C18_ForeignIgnored
 INVARIANT C18_InviteExactlyOnce
+INVARIANT C18_DirectInviteExactlyOnce
 INVARIANT C18_NoStall
 INVARIANT C06_ServeNotWedged
 CHECK_DEADLOCK FALSE
 '''
 MUC_PROPS = ["C18_JoinOK", "C18_JoinErr", "C18_CtxErr", "C18_LeaveReturns", "C18_JoinedIffIn", "C18_ForeignIgnored",
-             "C18_InviteExactlyOnce", "C18_NoStall", "C06_ServeNotWedged"]
+             "C18_InviteExactlyOnce", "C18_DirectInviteExactlyOnce", "C18_NoStall", "C06_ServeNotWedged"]
 # deviation -> (alphabet, the invariant TLC must report)
 MUC_DEVS = {
     "BareLookup": ("Alpha1", "C18_JoinOK"),               # DESIGN 7.1: join returns on any presence of the room
@@ -44,32 +47,56 @@ MUC_DEVS = {
     "NoReRegister": ("Alpha1", "C18_NoStall"),            # pinned code: rejoin after leaving never registered
     "JoinedBare": ("Alpha1", "C18_JoinedIffIn"),          # pinned code: Joined() always false
     "InvitePerMessage": ("AlphaInv", "C18_InviteExactlyOnce"),
+    "InviteFirstChild": ("AlphaInv", "C18_InviteExactlyOnce"),   # mediated invitation decoded from the message's first child only
+    "DirectFirstChild": ("AlphaInv", "C18_DirectInviteExactlyOnce"),   # the same for the direct-invitation handler
     "StaleBlocks": ("Alpha1", "C18_NoStall"),             # pinned code: stale hand-off entry blocks the next join
+    "ErrHandoverBlocks": ("AlphaSplit", "C06_ServeNotWedged"),   # sender goroutine offers the error reply without watching the context
 }
+C18_DEVS = ["BareLookup", "DepartLost", "NoReRegister", "JoinedBare", "InvitePerMessage", "InviteFirstChild", "DirectFirstChild", "StaleBlocks"]
+
+
+def _mc(ctx, name, workers, **kw):
+    kw.setdefault("splits", "FALSE")
+    kw.setdefault("dev", "{}")
+    kw.setdefault("maxflight", 2)
+    return ctx.model_check("MCMUC", MC_CFG % kw, MUC_PROPS, name=name, timeout=1500, workers=workers)
+
+
+def muc_design_runs(ctx, specs, devs):
+    """run the exhaustive design checks `specs` (name -> cfg parameters) and the deviation runs
+    side by side (TLC start-up dominates the small ones); returns (runs, caught)"""
+    nw = max(2, verif.NCPU // max(1, min(3, len(specs))))
+
+    def dev_run(d):
+        alpha, inv = MUC_DEVS[d]
+        splits = "TRUE" if alpha == "AlphaSplit" else "FALSE"
+        b = ctx.tlc("MCMUC", MC_CFG % dict(rooms='{"r1"}', ids="Ids2" if alpha == "AlphaInv" else "Ids3", maxenv=3 if alpha == "AlphaInv" else 5,
+                                          maxflight=2, alpha=alpha, splits=splits, dev='{"%s"}' % d),
+                    name="MCMUC_dev_" + d, timeout=600, workers=2)
+        return d, inv, b
+
+    with ThreadPoolExecutor(max_workers=len(specs) + 3) as ex:
+        fr = [ex.submit(_mc, ctx, name, nw, **kw) for name, kw in specs]
+        fd = [ex.submit(dev_run, d) for d in devs]
+        runs = [f.result() for f in fr]
+        caught = []
+        for f in fd:
+            d, inv, b = f.result()
+            if inv not in b.violated:
+                raise verif.Undecided("design check is vacuous: deviation %s does not violate %s (violated: %s)\n%s" % (d, inv, b.violated, b.out[-1500:]))
+            caught.append(d)
+    ctx.log("design check: deviations caught by TLC: " + ", ".join(caught))
+    return runs, caught
 
 
 def muc_design_check(ctx, quick, devs=None):
-    runs = []
-    r = ctx.model_check("MCMUC", MC_CFG % dict(rooms='{"r1"}', ids="Ids3", maxenv=6 if quick else 8, maxflight=2, alpha="Alpha1", dev="{}"),
-                        MUC_PROPS, name="MCMUC_one_room", timeout=1500)
-    runs.append(r)
-    r2 = ctx.model_check("MCMUC", MC_CFG % dict(rooms='{"r1"}', ids="Ids2", maxenv=4 if quick else 5, maxflight=2, alpha="AlphaInv", dev="{}"),
-                         MUC_PROPS, name="MCMUC_invites", timeout=900)
-    runs.append(r2)
+    specs = [("MCMUC_one_room", dict(rooms='{"r1"}', ids="Ids3", maxenv=6 if quick else 8, alpha="Alpha1")),
+             # every invitation message of AlphaInv: position of the payload among the children, direct / legacy element, 0-2 invites
+             ("MCMUC_invites", dict(rooms='{"r1"}', ids="Ids2", maxenv=4 if quick else 5, alpha="AlphaInv"))]
     if not quick:
-        r3 = ctx.model_check("MCMUC", MC_CFG % dict(rooms='{"r1", "r2"}', ids="Ids3", maxenv=5, maxflight=2, alpha="Alpha2", dev="{}"),
-                             MUC_PROPS, name="MCMUC_two_rooms", timeout=1500)
-        runs.append(r3)
-    caught = []
-    for d in (devs if devs is not None else sorted(MUC_DEVS)):
-        alpha, inv = MUC_DEVS[d]
-        b = ctx.tlc("MCMUC", MC_CFG % dict(rooms='{"r1"}', ids="Ids3", maxenv=5, maxflight=2, alpha=alpha, dev='{"%s"}' % d),
-                    name="MCMUC_dev_" + d, timeout=600)
-        if inv not in b.violated:
-            raise verif.Undecided("design check is vacuous: deviation %s does not violate %s (violated: %s)\n%s" % (d, inv, b.violated, b.out[-1500:]))
-        caught.append(d)
-    ctx.log("design check: deviations caught by TLC: " + ", ".join(caught))
-    return runs, caught
+        specs.append(("MCMUC_two_rooms", dict(rooms='{"r1", "r2"}', ids="Ids3", maxenv=5, alpha="Alpha2")))
+        specs.append(("MCMUC_split", dict(rooms='{"r1"}', ids="Ids3", maxenv=6, alpha="AlphaSplit", splits="TRUE")))
+    return muc_design_runs(ctx, specs, devs if devs is not None else C18_DEVS)
 
 
 # ----------------------------------------------------------------------------- MUC: scripts from TLC
@@ -78,18 +105,33 @@ EMIT_CFG = '''CONSTANTS
   MaxLen = %(maxlen)d
   MaxCalls = %(maxcalls)d
   MaxNoise = %(noise)d
+  InvFull = %(invfull)s
+  MaxSplit = %(split)d
+  Cuts = %(cuts)s
   OutFile = "scripts.ndjson"
 SPECIFICATION Spec
 '''
 
 
 def muc_emit(ctx, sets):
-    """sets: list of (rooms, maxlen, maxcalls, noise); returns the de-duplicated scenario list"""
+    """sets: list of (rooms, maxlen, maxcalls, noise[, options]); options: invfull (the noise is the
+    full invitation alphabet), split (number of stanzas delivered in two pieces), cuts (where);
+    the emissions run side by side; returns the de-duplicated scenario list"""
     seen = set()
     out = []
-    for i, (rooms, maxlen, maxcalls, noise) in enumerate(sets):
-        r = ctx.tlc("EmitMUC", EMIT_CFG % dict(rooms=rooms, maxlen=maxlen, maxcalls=maxcalls, noise=noise),
-                    workers=1, timeout=900, name="EmitMUC_%d" % i)
+
+    def emit(i, rooms, maxlen, maxcalls, noise, opt=None):
+        opt = opt or {}
+        return ctx.tlc("EmitMUC", EMIT_CFG % dict(rooms=rooms, maxlen=maxlen, maxcalls=maxcalls, noise=noise, invfull="TRUE" if opt.get("invfull") else "FALSE",
+                                                  split=opt.get("split", 0), cuts=opt.get("cuts", "{1, 3}")),
+                       workers=1, timeout=900, name="EmitMUC_%d" % i)
+
+    with ThreadPoolExecutor(max_workers=4) as ex:
+        results = list(ex.map(lambda a: emit(a[0], *a[1]), enumerate(sets)))
+    for i, st in enumerate(sets):
+        rooms, maxlen, maxcalls, noise = st[:4]
+        opt = st[4] if len(st) > 4 else {}
+        r = results[i]
         f = os.path.join(r.dir, "scripts.ndjson")
         if r.rc != 0 or not os.path.exists(f):
             raise verif.Undecided("EmitMUC failed:\n" + r.out[-2000:])
@@ -99,13 +141,24 @@ def muc_emit(ctx, sets):
                 seen.add(line)
                 out.append(json.loads(line))
                 n += 1
-        ctx.log("TLC emitted %d new scripts (rooms %s, length <= %d, calls <= %d, noise <= %d) in %.1fs" % (n, rooms, maxlen, maxcalls, noise, r.wall))
+        ctx.log("TLC emitted %d new scripts (rooms %s, length <= %d, calls <= %d, noise <= %d%s%s) in %.1fs" % (
+            n, rooms, maxlen, maxcalls, noise, " from the full invitation alphabet" if opt.get("invfull") else "",
+            ", <= %d stanza delivered in two pieces" % opt["split"] if opt.get("split") else "", r.wall))
         os.remove(f)
     return out
 
 
-def S(ty, room="r1", nick="me", call="-", n=0):
-    return {"op": "send", "room": "-", "call": "-", "st": {"ty": ty, "room": room, "nick": nick, "call": call, "n": n}}
+def S(ty, room="r1", nick="me", call="-", n=0, lay=None, pw=False, cut=0):
+    """the room sends a stanza; cut != 0: only its first piece for now (1 = up to the end of the start
+    tag, 2 = half of the bytes, 3 = all but the end tag), the remainder with the next R()"""
+    if lay is None:
+        lay = ["u"] if ty == "inv" else []
+    return {"op": "send", "room": "-", "call": "-", "cut": cut,
+            "st": {"ty": ty, "room": room, "nick": nick if ty != "inv" else "-", "call": call, "n": n, "lay": lay, "pw": pw}}
+
+
+def R():
+    return {"op": "rest", "room": "-", "call": "-"}
 
 
 def C(op, room="r1"):
@@ -127,7 +180,7 @@ def muc_explore_scenarios(tier):
         [C("join"), S("av"), C("leave"), S("er", call="c2")],
         [C("join", "r1"), C("join", "r2"), S("av", "r2"), S("av", "r1")],
         [C("join"), S("av"), S("un"), C("rejoin"), S("av"), C("leave"), S("un")],   # kicked, back, leave
-    ]
+    ] + muc_leave_cancel_scenarios(tier)
     if tier == "thorough":
         s += [
             [C("join"), S("av"), C("rejoin"), S("un"), S("av")],
@@ -136,6 +189,31 @@ def muc_explore_scenarios(tier):
             [C("join"), S("av"), C("leave"), X("c2"), S("un"), C("rejoin"), S("av"), C("leave"), S("un")],
         ]
     return [{"mode": "explore", "steps": x} for x in s]
+
+
+def muc_leave_cancel_scenarios(tier):
+    """cancellation of the leave call's context at every point of the leave path: before / after the
+    room's answer (unavailable self-presence or error reply) was sent, and - the answer delivered in
+    two pieces - while the serve loop / the call's sender goroutine is in the middle of reading it
+    (cut 1: the start tag only - the reply is handed over, its reader waits for the payload; 2: in the
+    middle of the payload; 3: everything but the end tag - the error is decoded, the serve loop waits
+    for the end of the stanza).  The schedules interleave the cancellation with the yield points."""
+    pre = [C("join"), S("av"), C("leave")]
+    s = [
+        pre + [S("er", call="c2", cut=1), X("c2"), R()],
+        pre + [S("er", call="c2", cut=2), X("c2"), R()],
+        pre + [S("er", call="c2"), X("c2")],
+        pre + [S("un", cut=2), X("c2"), R()],
+    ]
+    if tier == "thorough":
+        s += [
+            pre + [S("er", call="c2", cut=3), X("c2"), R()],
+            pre + [X("c2"), S("er", call="c2", cut=1), R()],
+            pre + [S("un", cut=1), X("c2"), R()],
+            pre + [S("er", call="c2", cut=1), X("c2"), R(), C("rejoin"), S("av")],
+            [C("join"), S("er", call="c1", cut=1), X("c1"), R()],
+        ]
+    return s
 
 
 # ----------------------------------------------------------------------------- MUC: driver
@@ -210,6 +288,7 @@ TR_CFG = '''CONSTANTS
   MaxEnv = 0
   MaxFlight = 0
   Alphabet = {}
+  Splits = FALSE
   Dev = {}
 SPECIFICATION TSpec
 CONSTRAINT HW
@@ -291,18 +370,30 @@ def muc_explain(tr, hw):
         return clause, "stall at quiescence: " + "; ".join(parts)
     if k == "handled":
         if ev.get("ty") == "inv":
-            return "C18_InviteExactlyOnce", "the invitation callback was not invoked once per <invite/> of the message"
+            sent = [e for e in tr if e["_line"] < hw and e.get("ev") == "send"]
+            nh = len([e for e in tr if e["_line"] < hw and e.get("ev") == "handled"])
+            st = sent[nh]["st"] if nh < len(sent) else {}
+            i = max([0] + [j + 1 for j, e in enumerate(tr) if e["_line"] < hw and e.get("ev") == "handled"])
+            cbs = ["%s(ns=%s k=%s pw=%s room=%s)" % (e.get("kind"), e.get("ns"), e.get("k"), e.get("pw"), e.get("room"))
+                   for e in tr[i:] if e["_line"] < hw and e.get("ev") == "invite_cb"]
+            # which of the two clauses (a reading of TLC's rejection, for the label only)
+            lay, pw = st.get("lay", []), "ok" if st.get("pw") else "none"
+            want = sorted("med(ns=user k=%d pw=%s room=-)" % (j, pw) for j in range(st.get("n", 0))) if "u" in lay else []
+            med_ok = sorted(c for c in cbs if c.startswith("med(")) == want
+            return ("C18_DirectInviteExactlyOnce" if med_ok else "C18_InviteExactlyOnce"), "invitation message with children %s (b body, t thread, u muc#user payload with %d <invite/>%s, c jabber:x:conference element): the application's callbacks were not invoked exactly once per %s invitation with its fields; invoked: %s" % (
+                "".join(lay) or "?", st.get("n", 0), " and the password" if st.get("pw") else "", "direct" if med_ok else "mediated", ", ".join(cbs) or "none")
         return "C18_ForeignIgnored", "callback for a presence of a room that was never joined, or stanzas processed out of order: %s" % json.dumps(ev)
     if k == "stuck":
         return "C06_NoStall", "permanent stall: %s" % ev.get("blocked")
     if k == "panic":
         return "C06_NoPanic", "panic in %s: %s" % (ev.get("who"), ev.get("text"))
     if k == "end":
-        return "C06_OneOutcome", "run ended with calls pending or stanzas unprocessed"
+        return "C06_NoStall", "run ended with calls pending or stanzas unprocessed (the serve loop ended or stopped reading: %s)" % (
+            "; ".join(e.get("err", "") for e in tr if e.get("ev") == "serve_ret") or "no return of Serve recorded")
     return "C18", "event %s not allowed here" % json.dumps(ev)
 
 
-C18_ONLY = ("C18_JoinedIffIn", "C18_InviteExactlyOnce", "C18_ForeignIgnored")
+C18_ONLY = ("C18_JoinedIffIn", "C18_InviteExactlyOnce", "C18_DirectInviteExactlyOnce", "C18_ForeignIgnored")
 
 
 C06_LABEL = {"C18_RequestSent": "C06_CallReturns (request never sent)", "C18_LeaveReturns": "C06_CallReturns (Leave)",
@@ -340,7 +431,13 @@ def script_text(sc):
     for s in sc["steps"]:
         if s["op"] == "send":
             st = s["st"]
-            out.append("%s(%s%s%s)" % (st["ty"], st["room"], "/" + st["nick"] if st["nick"] != "-" else "", (" " + st["call"]) if st["call"] != "-" else (" n=%d" % st["n"] if st["ty"] == "inv" else "")))
+            inv = ""
+            if st["ty"] == "inv":
+                inv = " %s n=%d%s" % ("".join(st.get("lay") or ["u"]), st["n"], " pw" if st.get("pw") else "")
+            out.append("%s(%s%s%s%s)" % (st["ty"], st["room"], "/" + st["nick"] if st["nick"] != "-" else "", (" " + st["call"]) if st["call"] != "-" else inv,
+                                         " cut=%d" % s["cut"] if s.get("cut") else ""))
+        elif s["op"] == "rest":
+            out.append("rest")
         elif s["op"] == "cancel":
             out.append("cancel(%s)" % s["call"])
         else:
